@@ -8,6 +8,7 @@ extern "C" {
 /* ld --wrap=time: the k-th call of time() (k = 0, 1, ...) returns t0 + k*step */
 void shim_time_set(int64_t t0, int64_t step);
 int shim_time_calls(void);
+void shim_prior_use(int kind); /* an earlier, unrelated use of util/hexify.c or alg/sha256.c by this process (1..5; see shim.c) */
 void shim_time_fail_at(int k); /* the k-th call (0-based) of time() returns (time_t)-1; -1 = never */
 int64_t shim_time_value(int k);
 
